@@ -39,9 +39,13 @@ pub enum JobClass {
 	HeldOutside,
 	/// stop / start / run controls are queued in the same action as the quit
 	QueuedControls,
+	/// created under a fixed id, started and deleted; once it has gone, a later action creates a
+	/// job under the same id again (`get_or_create_job`), starts it and keeps a clone of the
+	/// handle; the quit is requested by a third action
+	Recreated,
 }
 
-pub const CLASSES: [JobClass; 7] = [
+pub const CLASSES: [JobClass; 8] = [
 	JobClass::NeverStarted,
 	JobClass::Running,
 	JobClass::Finished,
@@ -49,6 +53,7 @@ pub const CLASSES: [JobClass; 7] = [
 	JobClass::Deleted,
 	JobClass::HeldOutside,
 	JobClass::QueuedControls,
+	JobClass::Recreated,
 ];
 
 #[derive(Clone, Copy, Debug, PartialEq, Eq, Hash, Serialize, Deserialize)]
@@ -99,6 +104,8 @@ struct Plan {
 	handles: Vec<Option<Job>>,
 	quit_at: Option<(u64, usize)>,
 	restart_armed_at: Option<u64>,
+	/// fixed ids of the `Recreated` jobs
+	ids: Vec<Option<watchexec::Id>>,
 }
 
 thread_local! {
@@ -235,11 +242,14 @@ fn scripted_action(config: &Config, await_start: bool) {
 		match step {
 			0 => {
 				let mut handles = vec![];
+				let mut ids = vec![];
 				for (i, c) in jobs.iter().enumerate() {
-					let (_, job) = a.create_job(cmd(i));
+					let id = watchexec::Id::default();
+					ids.push((*c == JobClass::Recreated).then_some(id));
+					let job = if *c == JobClass::Recreated { a.get_or_create_job(id, || cmd(i)) } else { a.create_job(cmd(i)).1 };
 					match c {
 						JobClass::NeverStarted => {}
-						JobClass::Deleted => {
+						JobClass::Deleted | JobClass::Recreated => {
 							job.start();
 							job.delete();
 						}
@@ -250,12 +260,27 @@ fn scripted_action(config: &Config, await_start: bool) {
 					let keep = matches!(c, JobClass::QueuedControls | JobClass::MidGracefulRestart | JobClass::HeldOutside);
 					handles.push(keep.then_some(job));
 				}
-				PLAN.with(|p| p.borrow_mut().handles = handles);
+				PLAN.with(|p| {
+					let mut p = p.borrow_mut();
+					p.handles = handles;
+					p.ids = ids;
+				});
 				if same {
 					do_quit(&mut a);
 				}
 			}
-			1 => {
+			1 if jobs.contains(&JobClass::Recreated) && !same => {
+				// the deleted job has gone by now: create it again under the same id
+				let ids = PLAN.with(|p| p.borrow().ids.clone());
+				for (i, c) in jobs.iter().enumerate() {
+					if *c == JobClass::Recreated {
+						let job = a.get_or_create_job(ids[i].expect("id"), || cmd(i));
+						job.start();
+						PLAN.with(|p| p.borrow_mut().handles[i] = Some(job));
+					}
+				}
+			}
+			1 | 2 => {
 				// arm the graceful restart timers, then (in this same action) quit
 				let handles: Vec<Option<Job>> = PLAN.with(|p| p.borrow().handles.clone());
 				for (i, c) in jobs.iter().enumerate() {
@@ -324,7 +349,7 @@ async fn lib_body(sc: &Sc) -> Result<Obs, String> {
 		rt::settle_quiet().await.map_err(|_| "livelock in set-up".to_string())?;
 	}
 	simchild::note("setup-done", 0, 0, "");
-	let mut triggered = *same_action;
+	let mut triggers_left = if *same_action { 0 } else if jobs.contains(&JobClass::Recreated) { 2 } else { 1 };
 	let mut exits = 0;
 	let mut livelock = false;
 	let mut main_result: Option<String> = None;
@@ -355,7 +380,7 @@ async fn lib_body(sc: &Sc) -> Result<Obs, String> {
 		let now = rt::now();
 		let alive = simchild::alive();
 		let mut menu = vec![];
-		if !triggered {
+		if triggers_left > 0 {
 			menu.push(Act::Trigger);
 		}
 		if !alive.is_empty() && exits < 2 {
@@ -372,7 +397,7 @@ async fn lib_body(sc: &Sc) -> Result<Obs, String> {
 		}
 		match menu[choose(Kind::Env, menu.len())] {
 			Act::Trigger => {
-				triggered = true;
+				triggers_left -= 1;
 				simchild::note("trigger-quit-action", 0, 0, "");
 				if wx.send_event(Event::default(), Priority::Urgent).await.is_err() {
 					simchild::note("send-failed", 0, 0, "");
@@ -719,7 +744,7 @@ pub fn scenarios(tier: Tier) -> Vec<(Sc, Vec<Bounds>)> {
 		for q in quits {
 			for ignores in [false, true] {
 				for same in [false, true] {
-					if same && matches!(c, JobClass::Finished | JobClass::MidGracefulRestart | JobClass::HeldOutside) {
+					if same && matches!(c, JobClass::Finished | JobClass::MidGracefulRestart | JobClass::HeldOutside | JobClass::Recreated) {
 						continue; // these classes need time to pass between creation and quit
 					}
 					let g = if let Quit::Graceful(g) = q { g } else { 0 };
